@@ -152,7 +152,7 @@ def make_catalog(path: Path, cat: dict, centers=None, *, patch_ids=None, max_wor
         data["pid"] = np.asarray(patch_ids, dtype=np.int64)
         names["patch_name"] = "pid"
     else:
-        names["patch_centers"] = AngularCoordinates(np.asarray(centers, dtype=float))
+        names["patch_centers"] = centers if isinstance(centers, Catalog) else AngularCoordinates(np.asarray(centers, dtype=float))
         if cat.get("stale_pid") is not None:
             # a redundant / stale patch-index column next to explicit centres: documented to be ignored
             data["pid"] = np.asarray(cat["stale_pid"], dtype=np.int64)
@@ -212,6 +212,39 @@ class Sample:
             self.margin = np.full(self.n, np.inf)
         else:
             self.patch, self.margin = nearest_centre(self.xyz, cxyz)
+
+
+class SceneUnusable(Exception):
+    """the generated scene cannot be turned into catalogs (harness-side precondition)"""
+
+
+def scene_samples(scene):
+    """the catalogs of a scene as the oracle sees them.  Normally every catalog is assigned to
+    the given centres; with ``scene["derived"]`` the first catalog is created from a patch-index
+    column (nearest given centre) and the others take their centres from that catalog, i.e. the
+    directions of the weighted mean vectors of its patches (documented in Metadata.compute).
+    Returns None when that leaves a patch of another catalog empty or a centre undefined."""
+    cen = np.asarray(scene["centers"], dtype=float)
+    cxyz = to_xyz(cen[:, 0], cen[:, 1])
+    cats = scene["cats"]
+    if not scene.get("derived"):
+        return [Sample(c, cxyz) for c in cats]
+    s0 = Sample(cats[0], cxyz)
+    derived = np.zeros_like(cxyz)
+    for k in range(len(cxyz)):
+        m = s0.patch == k
+        v = (s0.xyz[m] * s0.w[m][:, None]).sum(axis=0)
+        norm = float(np.linalg.norm(v))
+        if not m.any() or not norm > 1e-6 * float(np.abs(s0.w[m]).sum()):
+            return None
+        derived[k] = v / norm
+    out = [s0]
+    for c in cats[1:]:
+        s = Sample(c, derived)
+        if len(set(s.patch.tolist())) < len(cxyz):
+            return None
+        out.append(s)
+    return out
 
 
 def expected_counts(s1: Sample, s2: Sample, *, auto: bool, binned2: bool, edges, closed, ang_min, ang_max, npatch, rweight=None, resolution=None, amb_abs=1e-12, amb_rel=1e-9):
